@@ -95,6 +95,8 @@ func (g *gen) enumv() kmip.Enum {
 	return kmip.Enum(g.pick(64))
 }
 
+const spareSentinel = 0xEE
+
 func (g *gen) bytesv() []byte {
 	n := g.pick(18) // 0..17 around the padding boundary
 	if g.chance(0.08) {
@@ -103,7 +105,11 @@ func (g *gen) bytesv() []byte {
 	if g.big && g.chance(0.02) {
 		n = 1000 + g.pick(9000)
 	}
-	b := make([]byte, n)
+	// (spare capacity behind the value, filled with a sentinel: Encode must not write into memory of its input)
+	b := make([]byte, n, n+9)
+	for i, full := n, b[:cap(b)]; i < len(full); i++ {
+		full[i] = spareSentinel
+	}
 	switch g.pick(3) {
 	case 0:
 		g.r.Read(b)
